@@ -246,7 +246,56 @@ func c10NonIfaceTypeVars(r *Run, m *c10Memo) map[*ssa.Global]bool {
 	return out
 }
 
+// c10ElementTyping decides (typed) and (neutral); the rule set is shared by three properties, the
+// execution is done once per loaded program and its obligations are recorded again under each rule id.
 func c10ElementTyping(r *Run, li *c10LaxInfo) *c10Elem {
+	type logged struct {
+		key, where, detail string
+		ok                 bool
+		floor              *[2]int
+	}
+	type cached struct {
+		res  *c10Elem
+		log  []logged
+		vals int
+	}
+	if c, ok := c10ElemCache[r.P].(*cached); ok && r.cfg == "" {
+		for _, l := range c.log {
+			if l.floor != nil {
+				r.Floor(strings.TrimPrefix(l.key, "floor:"), l.floor[0], l.floor[1])
+			} else {
+				r.Check(l.key, l.ok, l.where, l.detail)
+			}
+		}
+		r.Valuations += c.vals
+		return c.res
+	}
+	n0, v0 := len(r.Obls), r.Valuations
+	res := c10ElementTyping0(r, li)
+	if r.cfg == "" {
+		c := &cached{res: res, vals: r.Valuations - v0}
+		pre := r.curRule + ":"
+		for _, o := range r.Obls[n0:] {
+			k := strings.TrimPrefix(o.Key, pre)
+			l := logged{key: k, where: o.Where, detail: o.Detail, ok: o.OK}
+			if strings.HasPrefix(k, "floor:") {
+				if f, ok := r.Floors[r.curRule+":"+strings.TrimPrefix(k, "floor:")]; ok {
+					l.floor = &f
+				}
+			}
+			c.log = append(c.log, l)
+		}
+		if c10ElemCache == nil {
+			c10ElemCache = map[*Prog]any{}
+		}
+		c10ElemCache[r.P] = c
+	}
+	return res
+}
+
+var c10ElemCache map[*Prog]any
+
+func c10ElementTyping0(r *Run, li *c10LaxInfo) *c10Elem {
 	res := &c10Elem{fields: map[*types.Var]string{}}
 	pk := r.P.Pkg("asn1")
 	up := r.P.SSA.ImportedPackage("encoding/asn1")
